@@ -509,3 +509,50 @@ def rule_isel_mov_only(ctx):
         r.discharged = len([i for i in r.instances if i["verdict"] == "ok"])
         out.append(r)
     return out
+
+
+def rule_regfile(ctx):
+    """R-REGFILE: the map from environment positions to temporaries"""
+    res = RuleResult("R-REGFILE", "the function that assigns a temporary to an environment position (temporary_from_position of the x86-64 and "
+                     "AArch64 backends), folded for every position from 0 to well beyond the register file: every register it hands out "
+                     "exists on the target and is none of the reserved ones (stack, heap, free, scratch), every spill slot lies inside the "
+                     "spill area and is not the scratch slot, and no two positions share a location. A position mapped to a register the "
+                     "printer has a name for but the machine does not (`X31`) assembles to nothing")
+    for b in ("x86_64", "aarch64"):
+        tg = Target(ctx, b)
+        reg_num = tg.consts["REGISTER_NUM"]["val"]
+        last = reg_num - tg.reserved + 12
+        reserved = {n for n in (tg.const_reg_name(c_) for c_ in ("STACK", "HEAP", "FREE", "TEMP", "TEMP2", "RETURN2")) if n} - {None}
+        # RETURN1/RETURN2 are ordinary variable registers on some targets: only what the generator keeps for itself is excluded
+        reserved = {n for n in (tg.const_reg_name(c_) for c_ in ("STACK", "HEAP", "FREE", "TEMP", "TEMP2")) if n} | {isa.SP[b]}
+        scratch = tg.spill_temp_slot()
+        space = tg.consts.get("SPILL_SPACE", {}).get("val")
+        seen = {}
+        bad = []
+        n = 0
+        f = ctx.fx.fn(tg.crate + "::utils::temporary_from_position")
+        for p in range(0, last + 1):
+            t = temporary_at(tg, p)
+            loc = tg.loc_of(t)
+            n += 1
+            if loc[0] == "reg":
+                if loc[1] not in isa.VALID_REGS[b]:
+                    bad.append("position %d is given the register `%s`, which does not exist on %s" % (p, loc[1], b))
+                elif loc[1] in reserved:
+                    bad.append("position %d is given the reserved register %s" % (p, loc[1]))
+            else:
+                off = loc[1][1]
+                if scratch and loc[1] == scratch:
+                    bad.append("position %d is given the scratch slot [sp%+d]" % (p, off))
+                if isinstance(space, int) and not (0 <= off < space):
+                    bad.append("position %d is given the slot [sp%+d] outside the spill area of %d bytes" % (p, off, space))
+            if loc in seen:
+                bad.append("positions %d and %d share the location %s" % (seen[loc], p, loc[1] if loc[0] == "reg" else "[sp%+d]" % loc[1][1]))
+            seen.setdefault(loc, p)
+        ikey = "%s:positions" % b
+        if bad:
+            res.inst(ikey, f["sp"]["file"], f["sp"]["line"], "violation", "%d problems" % len(bad))
+            res.violate(ikey, "%s: %s" % (b, "; ".join(bad[:3])), f["sp"]["file"], f["sp"]["line"])
+        else:
+            res.inst(ikey, f["sp"]["file"], f["sp"]["line"], "ok", "%d positions: registers exist and are not reserved, slots inside the spill area, all locations distinct" % n)
+    return res
